@@ -1,8 +1,370 @@
+/-
+  Driver for C11 — arithmetic on boxes, elements and fibers.
+
+  Families of cases (field "fam"):
+    bin    one binary operator expression      (model `pyBin`,  spec `binSpec`)
+    cmp    one comparison                      (model `pyCmp`,  spec = the comparison of the values)
+    iop    one in-place statement `a op= b`    (model `pyIop`,  spec `iopSpec`)
+    fiber  one fiber operator (fiber or scalar right operand), Int leaves
+
+  Values of boxes are tokens: a JSON integer, or a string ("f:<hex>" = a double's bit pattern,
+  "ERR:<class>", "obj:<type>" …).  The value algebra handed to the model computes `+ - * // <<`
+  and the comparisons on integers in Lean and takes everything else (true division, bit
+  operators, floats) from the oracle the harness computed with the same operator on the raw
+  Python values; where Lean computes, the oracle must agree (else the spec verdict is false).
+-/
 import FtDriver.Json
 open Lean (Json)
 namespace FtDriver
-open Ft
+open Ft Ft.Arith
 
-def handleC11 (_j : Json) : Except String Verdict := throw "C11: not implemented"
+inductive Tok | int (i : Int) | str (s : String)
+  deriving DecidableEq, Repr
+
+def Tok.ofJson (j : Json) : Except String Tok :=
+  match j.getInt? with
+  | .ok i => pure (.int i)
+  | .error _ =>
+    match j.getStr? with
+    | .ok s => pure (.str s)
+    | .error _ => throw "token: expected integer or string"
+
+def Tok.toJson : Tok → Json
+  | .int i => jInt i
+  | .str s => Json.str s
+
+def kindOfStr : String → Except String Kind
+  | "S" => pure .S | "P" => pure .P | "E" => pure .E | s => throw s!"bad kind {s}"
+
+def binOfStr : String → Except String BinOp
+  | "add" => pure .add | "sub" => pure .sub | "mul" => pure .mul | "div" => pure .div
+  | "fdiv" => pure .fdiv | "shl" => pure .shl | "band" => pure .band | "bor" => pure .bor
+  | s => throw s!"bad binop {s}"
+
+def binName : BinOp → String
+  | .add => "add" | .sub => "sub" | .mul => "mul" | .div => "div"
+  | .fdiv => "fdiv" | .shl => "shl" | .band => "band" | .bor => "bor"
+
+def cmpOfStr : String → Except String CmpOp
+  | "eq" => pure .eq | "ne" => pure .ne | "lt" => pure .lt | "le" => pure .le
+  | "gt" => pure .gt | "ge" => pure .ge | s => throw s!"bad cmp {s}"
+
+def iopOfStr : String → Except String IOp
+  | "iadd" => pure .iadd | "isub" => pure .isub | "imul" => pure .imul
+  | "ishl" => pure .ishl | "idiv" => pure .idiv | s => throw s!"bad iop {s}"
+
+/-- what Lean computes itself on integers -/
+def leanBin (op : BinOp) : Tok → Tok → Option (Except String Tok)
+  | .int x, .int y =>
+    match op with
+    | .add => some (.ok (.int (x + y)))
+    | .sub => some (.ok (.int (x - y)))
+    | .mul => some (.ok (.int (x * y)))
+    | .fdiv => some (if y = 0 then .error "ZeroDivisionError" else .ok (.int (Int.fdiv x y)))
+    | .shl => some (if y < 0 then .error "ValueError" else
+                    if y ≤ 4096 then .ok (.int (x <<< y.toNat)) else .error "too-large")
+    | _ => none
+  | _, _ => none
+
+def leanCmp (c : CmpOp) (x y : Int) : Bool :=
+  match c with
+  | .eq => x == y | .ne => x != y | .lt => decide (x < y) | .le => decide (x ≤ y)
+  | .gt => decide (x > y) | .ge => decide (x ≥ y)
+
+def exceptEq : Except String Tok → Except String Tok → Bool
+  | .ok a, .ok b => a == b
+  | .error a, .error b => a == b
+  | _, _ => false
+
+/-- oracle entry: a token, or "ERR:<class>" meaning the value operator raised -/
+def oracleOf (t : Tok) : Except String Tok :=
+  match t with
+  | .str s => if s.startsWith "ERR:" then .error (s.drop 4).toString else .ok t
+  | _ => .ok t
+
+/-- the value algebra: Lean on integers where it can, the oracle table otherwise -/
+def algOf (raws : List (String × Tok)) (cmpRaw cmpRawSw : Bool) (c0 : Option CmpOp) : Alg Tok String where
+  bin := fun op x y =>
+    match leanBin op x y with
+    | some r => r
+    | none =>
+      match raws.lookup (binName op) with
+      | some t => oracleOf t
+      | none => .error "no-oracle"
+  cmp := fun c x y =>
+    match x, y with
+    | .int a, .int b => leanCmp c a b
+    | _, _ => if some c = c0 then cmpRaw else cmpRawSw
+
+/-- every oracle entry Lean can recompute must agree with Lean -/
+def oracleConsistent (raws : List (String × Tok)) (x y : Tok) : Bool :=
+  raws.all (fun (n, t) =>
+    match binOfStr n with
+    | .ok op => match leanBin op x y with
+      | some r => exceptEq r (oracleOf t)
+      | none => true
+    | .error _ => false)
+
+def parseRaws (j : Json) : Except String (List (String × Tok)) := do
+  match j.getObjVal? "raws" with
+  | .error _ => pure []
+  | .ok o =>
+    let kvs ← o.getObj?
+    kvs.toList.mapM (fun (k, v) => do pure (k, ← Tok.ofJson v))
+
+def resOfImpl (j : Json) : Except String (Res Tok String) := do
+  let k ← fStr j "k"
+  match k with
+  | "boxed" => pure (.boxed (← Tok.ofJson (← field j "v")))
+  | "plain" => pure (.plain (← Tok.ofJson (← field j "v")))
+  | "err" =>
+    let e ← fStr j "e"
+    pure (if e == "TypeError" then .typeError else .raised e)
+  | _ => pure (.raised ("other:" ++ fStrD j "v" "?"))
+
+/-- the value operator raising TypeError is not distinguishable from a dispatch failure -/
+def normRes : Res Tok String → Res Tok String
+  | .raised "TypeError" => .typeError
+  | r => r
+
+def resToJson : Res Tok String → Json
+  | .plain v => Json.mkObj [("k", "plain"), ("v", v.toJson)]
+  | .boxed v => Json.mkObj [("k", "boxed"), ("v", v.toJson)]
+  | .typeError => Json.mkObj [("k", "err"), ("e", "TypeError")]
+  | .raised e => Json.mkObj [("k", "err"), ("e", Json.str e)]
+
+def kindStr : Kind → String | .S => "S" | .P => "P" | .E => "E"
+
+def isFloatTok : Tok → Bool
+  | .str s => s.startsWith "f:"
+  | _ => false
+
+def handleBin (j : Json) : Except String Verdict := do
+  let op ← binOfStr (← fStr j "op")
+  let ka ← kindOfStr (← fStr j "ka")
+  let kb ← kindOfStr (← fStr j "kb")
+  let x ← Tok.ofJson (← field j "x")
+  let y ← Tok.ofJson (← field j "y")
+  let raws ← parseRaws j
+  if ka == .S && kb == .S then return { agree := true, spec := true, tags := ["OUT_OF_MODEL"] }
+  let A := algOf raws false false none
+  let impl ← resOfImpl (← field j "impl")
+  let m := normRes (pyBin A op ka kb x y)
+  let s := normRes (binSpec A op x y)
+  let cons := oracleConsistent raws x y
+  let tags := [s!"bin:{(binName op)}:{kindStr ka}{kindStr kb}",
+               if binSupported op ka kb then "supported" else "unsupported",
+               if isFloatTok x || isFloatTok y then "float" else "int"] ++
+              (match s with | .raised _ => ["value-op-raises"] | .typeError => ["value-op-raises"] | _ => []) ++
+              (if (leanBin op x y).isSome then ["lean-arith"] else ["oracle-arith"])
+  pure { agree := decide (m = impl), spec := cons && decide (impl = s), model := resToJson m, tags,
+         why := if cons then "" else "oracle disagrees with Lean integer arithmetic" }
+
+def handleCmp (j : Json) : Except String Verdict := do
+  let c ← cmpOfStr (← fStr j "op")
+  let ka ← kindOfStr (← fStr j "ka")
+  let kb ← kindOfStr (← fStr j "kb")
+  let x ← Tok.ofJson (← field j "x")
+  let y ← Tok.ofJson (← field j "y")
+  if ka == .S && kb == .S then return { agree := true, spec := true, tags := ["OUT_OF_MODEL"] }
+  let raw ← (← field j "raw").getBool?
+  let rawSw ← (← field j "raw_sw").getBool?
+  let A := algOf [] raw rawSw (some c)
+  let implJ ← field j "impl"
+  let k ← fStr implJ "k"
+  let expected := A.cmp c x y
+  let m := pyCmp A c ka kb x y
+  let cons := match x, y with
+    | .int a, .int b => leanCmp c a b == raw && leanCmp c.swap b a == rawSw
+    | _, _ => true
+  let tags := [s!"cmp:{fStrD j "op" "?"}:{kindStr ka}{kindStr kb}",
+               if isFloatTok x || isFloatTok y then "float" else "int",
+               if expected then "true" else "false"]
+  if k == "bool" then
+    let v ← (← field implJ "v").getBool?
+    pure { agree := m == v, spec := cons && v == expected && raw == rawSw, model := Json.bool m, tags }
+  else
+    pure { agree := false, spec := false, model := Json.bool m, tags, why := "comparison did not return a bool" }
+
+def heldToJson : Held Tok → Json
+  | .val v => v.toJson
+  | .elemObj => Json.str "obj:CoordPayload"
+
+def iresToJson : IRes Tok String → Json
+  | .done r a => Json.mkObj [("ret", Json.str (match r with | .same => "same" | .none => "none" | .fresh => "fresh")),
+                             ("a", heldToJson a)]
+  | .typeError => Json.mkObj [("err", "TypeError")]
+  | .raised e => Json.mkObj [("err", Json.str e)]
+
+def normIRes : IRes Tok String → IRes Tok String
+  | .raised "TypeError" => .typeError
+  | r => r
+
+def iresOfImpl (j : Json) : Except String (IRes Tok String) := do
+  match j.getObjVal? "err" with
+  | .ok e =>
+    let e ← e.getStr?
+    pure (if e == "TypeError" then .typeError else .raised e)
+  | .error _ =>
+    let r ← fStr j "ret"
+    let a ← Tok.ofJson (← field j "a")
+    let held : Held Tok := if a = .str "obj:CoordPayload" then .elemObj else .val a
+    match r with
+    | "same" => pure (.done .same held)
+    | "none" => pure (.done .none held)
+    | "fresh" => pure (.done .fresh held)
+    | s => pure (.raised ("ret:" ++ s))
+
+def handleIop (j : Json) : Except String Verdict := do
+  let i ← iopOfStr (← fStr j "op")
+  let ka ← kindOfStr (← fStr j "ka")
+  let kb ← kindOfStr (← fStr j "kb")
+  let x ← Tok.ofJson (← field j "x")
+  let y ← Tok.ofJson (← field j "y")
+  let raws ← parseRaws j
+  if ka == .S then return { agree := true, spec := true, tags := ["OUT_OF_MODEL"] }
+  let A := algOf raws false false none
+  let impl ← iresOfImpl (← field j "impl")
+  let m := normIRes (pyIop A i ka kb x y)
+  let s := normIRes (iopSpec A i x y)
+  let cons := oracleConsistent raws x y
+  let alias := match j.getObjVal? "alias" with | .ok (Json.bool true) => true | _ => false
+  let tags := [s!"iop:{fStrD j "op" "?"}:{kindStr ka}{kindStr kb}",
+               if iopSupported i ka kb then "supported" else "unsupported",
+               if isFloatTok x || isFloatTok y then "float" else "int"] ++
+              (if alias then ["alias"] else [])
+  pure { agree := decide (m = impl), spec := cons && decide (impl = s), model := iresToJson m, tags,
+         why := if cons then "" else "oracle disagrees with Lean integer arithmetic" }
+
+/-! ### fibers -/
+
+def optNat (j : Json) (k : String) : Option Nat :=
+  match j.getObjVal? k with
+  | .ok v => match v.getNat? with | .ok n => some n | .error _ => none
+  | .error _ => none
+
+/-- all points of an `n0 × n1` shape -/
+def gridPoints (ns : List Nat) : List (List Int) :=
+  ns.foldr (fun n acc => (List.range n).flatMap (fun (i : Nat) => acc.map (fun p => (i : Int) :: p))) [[]]
+
+def fiberTags (dflt : Int) (d : Nat) (a b : T (d + 1)) : List String :=
+  let pa := present dflt d a; let pb := present dflt d b
+  (if pa.isEmpty then ["emptyA"] else []) ++ (if pb.isEmpty then ["emptyB"] else []) ++
+  (if pa.length < (show List (Int × T d) from a).length then ["skipA"] else []) ++
+  (if pb.length < (show List (Int × T d) from b).length then ["skipB"] else []) ++
+  (if pa.any (fun e => hasCoord pb e.1) then ["overlap"] else ["disjoint"]) ++
+  (if pa.any (fun e => !hasCoord pb e.1) then ["aonly"] else []) ++
+  (if pb.any (fun e => !hasCoord pa e.1) then ["bonly"] else [])
+
+
+def handleScalarLeaf (j : Json) (op : String) (dflt : Int) : Except String Verdict := do
+  let s ← fInt j "s"
+  let isAdd := op == "sadd" || op == "radd" || op == "isadd"
+  let a ← fTree j "a" 1
+  let implJ ← field j "impl"
+  let implErr := match implJ.getObjVal? "err" with | .ok (Json.str e) => some e | _ => none
+  let implOut : Option (T 1) := match implJ.getObjVal? "out" with
+    | .ok o => (parseTree 1 o).toOption
+    | .error _ => none
+  let a0 : Fib Int Int := show List (Int × T 0) from a
+  let n := shapeOf (optNat j "shape") a0
+  if isAdd && !inShapeB n a0 then return { agree := true, spec := true, tags := ["OUT_OF_MODEL"] }
+  let m : Fib Int Int := match op with
+    | "sadd" | "radd" => saddF dflt s n a0
+    | "isadd" => isaddF dflt s n a0
+    | "smul" | "rmul" => smulF dflt s a0
+    | _ => ismulF dflt s a0
+  let mT : T 1 := show List (Int × T 0) from m
+  let tags := [s!"fiber:{op}", "leaf", s!"dflt{dflt}", if (optNat j "shape").isSome then "shape-declared" else "shape-estimated"] ++
+    (if a0.isEmpty then ["emptyA"] else []) ++ (if a0.any (fun e => e.2 == dflt) then ["explicit-default"] else []) ++
+    (if isAdd && a0.length < n then ["fills"] else []) ++ (if s == 0 then ["s=0"] else [])
+  match implOut with
+  | some out =>
+    let out0 : Fib Int Int := show List (Int × T 0) from out
+    let spec :=
+      if isAdd then
+        (List.range n).all (fun (i : Nat) => denseAt dflt 1 out [(i : Int)] == s + denseAt dflt 1 a [(i : Int)]) &&
+        out0.all (fun e => (decide (0 ≤ e.1) && decide (e.1 < (n : Int))) || e.2 == dflt)
+      else
+        pointwiseB dflt 1 (fun x _ => if x ≠ dflt then s * x else dflt) a a out
+    pure { agree := sameDenseB dflt 1 mT out, spec, model := treeToJson 1 mT, tags }
+  | none =>
+    pure { agree := false, spec := false, model := treeToJson 1 mT, tags,
+           why := s!"implementation gave no tree: {implErr.getD "unparsable output"}" }
+
+/-- value-returning scalar forms on a fiber of fibers (only sadd/radd/smul/rmul are generated) -/
+def handleScalarDeep (j : Json) (op : String) (dflt : Int) (d' : Nat) : Except String Verdict := do
+  let s ← fInt j "s"
+  let isAdd := op == "sadd" || op == "radd"
+  let a ← fTree j "a" (d' + 2)
+  if !wfB (d' + 2) a then return { agree := true, spec := true, tags := ["OUT_OF_MODEL"] }
+  let implJ ← field j "impl"
+  let implErr := match implJ.getObjVal? "err" with | .ok (Json.str e) => some e | _ => none
+  let implOut : Option (T (d' + 2)) := match implJ.getObjVal? "out" with
+    | .ok o => (parseTree (d' + 2) o).toOption
+    | .error _ => none
+  let shape2 ← asInts (← field j "shape2")
+  let ns := shape2.map Int.toNat
+  let n0 := ns.headD 0
+  let m : Except String (Fib Int Unit) := if isAdd then saddDeep n0 else smulDeep dflt d' a
+  let raises := match m with | .ok _ => false | .error _ => true
+  let tags := [s!"fiber:{op}", "depth2", s!"dflt{dflt}", if raises then "deep-raises" else "deep-trivial"]
+  let modelJ := match m with | .ok _ => jList [] | .error e => Json.str ("ERR:" ++ e)
+  match implOut, implErr with
+  | some out, _ =>
+    let spec :=
+      if isAdd then (gridPoints ns).all (fun p => denseAt dflt (d' + 2) out p == s + denseAt dflt (d' + 2) a p)
+      else pointwiseB dflt (d' + 2) (fun x _ => if x ≠ dflt then s * x else dflt) a a out
+    pure { agree := !raises && (content dflt (d' + 2) out).isEmpty, spec, model := modelJ, tags }
+  | none, some e =>
+    let same := match m with | .error me => ("ERR:" ++ me) == e | .ok _ => false
+    pure { agree := same, spec := false, model := modelJ, tags, why := s!"value-returning scalar form raised {e}" }
+  | none, none => pure { agree := false, spec := false, model := modelJ, tags, why := "unparsable output" }
+
+def handleFiber (j : Json) : Except String Verdict := do
+  let op ← fStr j "op"
+  let d ← fNat j "d"
+  let dflt := fIntD j "dflt" 0
+  let a ← fTree j "a" (d + 1)
+  let implJ ← field j "impl"
+  let implErr := match implJ.getObjVal? "err" with | .ok (Json.str e) => some e | _ => none
+  let implOut : Option (T (d + 1)) := match implJ.getObjVal? "out" with
+    | .ok o => (parseTree (d + 1) o).toOption
+    | .error _ => none
+  let dtag := if d == 0 then "leaf" else "depth2"
+  if !wfB (d + 1) a then return { agree := true, spec := true, tags := ["OUT_OF_MODEL"] }
+  match op with
+  | "add" | "mul" | "iadd" | "imul" =>
+    let b ← fTree j "b" (d + 1)
+    if !wfB (d + 1) b then return { agree := true, spec := true, tags := ["OUT_OF_MODEL"] }
+    let m : T (d + 1) := match op with
+      | "add" => addT dflt (d + 1) a b
+      | "mul" => mulT dflt (d + 1) a b
+      | "iadd" => iaddT dflt (d + 1) a b
+      | _ => imulT dflt d a b
+    let exp : Int → Int → Int := if op == "add" || op == "iadd" then addExpect dflt else mulExpect dflt
+    let tags := [s!"fiber:{op}", dtag, s!"dflt{dflt}"] ++ fiberTags dflt d a b
+    match implOut with
+    | some out =>
+      let structEq := (treeToJson (d + 1) out).compress == (treeToJson (d + 1) m).compress
+      pure { agree := sameDenseB dflt (d + 1) m out, spec := pointwiseB dflt (d + 1) exp a b out,
+             model := treeToJson (d + 1) m, tags := tags ++ [if structEq then "struct-eq" else "struct-diff"] }
+    | none =>
+      pure { agree := false, spec := false, model := treeToJson (d + 1) m, tags,
+             why := s!"implementation gave no tree: {implErr.getD "unparsable output"}" }
+  | "sadd" | "radd" | "smul" | "rmul" | "isadd" | "ismul" =>
+    match d with
+    | 0 => handleScalarLeaf j op dflt
+    | d' + 1 => handleScalarDeep j op dflt d'
+  | _ => throw s!"C11: unknown fiber op {op}"
+
+def handleC11 (j : Json) : Except String Verdict := do
+  let fam ← fStr j "fam"
+  match fam with
+  | "bin" => handleBin j
+  | "cmp" => handleCmp j
+  | "iop" => handleIop j
+  | "fiber" => handleFiber j
+  | _ => throw s!"C11: unknown family {fam}"
 
 end FtDriver
